@@ -4,7 +4,7 @@
    deep_no_hidden: the same at every depth of object nesting. *)
 From Coq Require Import String List Bool.
 From Verif Require Import Base.ListX Base.Json Base.Free Pub.Events Pub.Calls Pub.Value Pub.Util Pub.SideEffect Pub.BaseActor.
-From Verif Require Import Pub.DeliverySpec Proofs.HiddenProofs Proofs.DeliveryProofs.
+From Verif Require Import Pub.DeliverySpec Proofs.HiddenProofs Proofs.DeliveryProofs Proofs.EffectProofs Proofs.NormalizeProofs Proofs.WrapProofs Proofs.ReceiveProofs.
 Import ListNotations.
 Open Scope string_scope.
 
@@ -69,6 +69,42 @@ Example C03_example :
   no_hidden act = false /\ no_hidden (strip_hidden act) = true /\ jget "to" (strip_hidden act) = Some (JStr "https://x.example/c").
 Proof. vm_compute. repeat split. Qed.
 
+(* ---- "... and the hidden recipients still receive the delivery", as ONE statement about ONE run: Deliver run against the
+   environment any federation graph g presents (the hypotheses of C02_deliver) hands the activity over exactly once; the
+   hand-over lists the inbox of every hidden recipient h (bto / bcc of the activity, not Public, its inbox stored or reached
+   within the depth and not the sender's own) and its payload is the serialisation of the stripped activity, which carries no
+   bto / bcc.  Wrapping and normalisation keep the hidden recipients (those of a bare object, those of the embedded objects
+   of a Create), so the same holds for what they produce. ---- *)
+Theorem C03_hidden_recipient_receives : forall g env outbox sender sender_doc,
+  (forall u, env (EDeref u) = deref_answer (g_deref g u)) -> (forall i, env (ELock i) = AOk) ->
+  (forall a, env (EDb "InboxForActor" [JStr a]) = match g_stored_inbox g a with Some i => AIri i | None => ANone end) ->
+  (forall b, env (ENewTransport b) = AOk) -> env (EApp "MaxDeliveryRecursionDepth" []) = ANat (g_depth g) -> g_depth g <> 0 ->
+  env (EDb "ActorForOutbox" [JStr outbox]) = AIri sender -> env (EDb "Get" [JStr sender]) = AJson sender_doc ->
+  get_inbox sender_doc = Ok (g_self g) -> (forall p r, env (EBatchDeliver p r) = AOk) ->
+  forall a targets h ib,
+  spec_targets g a = Ok targets ->
+  hidden_in a h -> is_public h = false -> inbox_of g h ib -> ib <> g_self g ->
+  let r := fst (run_env env (deliver outbox a)) in
+  let tr := snd (run_env env (deliver outbox a)) in
+  runs (deliver outbox a) (map (fun e => (e, env e)) tr) r /\
+  r = Ok (strip_hidden a) /\
+  exists p rs, In (EBatchDeliver p rs) tr /\ In ib rs /\ rs = targets /\
+    p = canon (streams_serialize (strip_hidden a)) /\
+    (flat a = true -> no_hidden p = true) /\
+    forall p' rs', In (EBatchDeliver p' rs') tr -> p' = p /\ rs' = rs.
+Proof. exact hidden_recipient_receives. Qed.
+Theorem C03_hidden_survive_wrap : forall o actor c, wrap_in_create o actor = Ok c ->
+  (forall ids, vhas o "bto" = true -> ids_of "bto" o = Ok ids -> ids_of "bto" c = Ok ids) /\
+  (forall ids, vhas o "bcc" = true -> ids_of "bcc" o = Ok ids -> ids_of "bcc" c = Ok ids) /\
+  (forall h, (vhas o "bto" = true /\ exists b, ids_of "bto" o = Ok b /\ In h b) \/
+             (vhas o "bcc" = true /\ exists b, ids_of "bcc" o = Ok b /\ In h b) -> hidden_in c h).
+Proof. exact hidden_survive_wrap. Qed.
+Theorem C03_hidden_survive_normalise : forall perm, (forall l x, In x (perm l) <-> In x l) ->
+  forall a m a', a = JObj m -> flat_addr a -> Forall flat_addr (elems0 "object" a) ->
+  normalize_recipients perm a = Ok a' ->
+  forall h, hidden_in a h \/ (exists e, In e (elems0 "object" a) /\ hidden_in e h) -> hidden_in a' h.
+Proof. exact hidden_survive_normalise. Qed.
+
 Print Assumptions C03_strip.
 Print Assumptions C03_payload.
 Print Assumptions C03_deliver.
@@ -76,3 +112,6 @@ Print Assumptions C03_transport.
 Print Assumptions C03_handler.
 Print Assumptions C03_hidden_addressed.
 Print Assumptions C03_hidden_receive.
+Print Assumptions C03_hidden_recipient_receives.
+Print Assumptions C03_hidden_survive_wrap.
+Print Assumptions C03_hidden_survive_normalise.
